@@ -9,6 +9,8 @@
 //!                                   each recovery all clones have overlapping requests in flight against a slow replier
 //!   rqreuse <n>                     a request times out, every requestor stream of the topic closes, a new requestor
 //!                                   opens and calls; the replier then sends the late reply before the new one (n rounds)
+//!   rqlate <n>                      a request times out; the same requestor (odd rounds: a clone) calls again at once; the
+//!                                   replier sends the late reply to the first just before the reply to the second (n rounds)
 //!   rqstall <n> <kib>               a replier that registers and then never reads; a requestor (400 ms timeout) issues n
 //!                                   requests of <kib> KiB one after the other: each must fail with a timeout in time
 //! `<order>` (written by the harness) is the arrival order as `stream.clone` tokens.
@@ -181,6 +183,28 @@ async fn run_cut(addr: SocketAddr, certs: &Certs, clones: usize, outages: usize)
     Ok(outs.join(","))
 }
 
+async fn run_late(addr: SocketAddr, certs: &Certs, rounds: usize) -> anyhow::Result<String> {
+    let mut outs = vec![];
+    for k in 0..rounds {
+        let topic = format!("/verif/rpc{}", TOPIC.fetch_add(1, Ordering::SeqCst));
+        let rep = scripted_replier(addr, certs, &topic, Duration::from_millis(120), true).await?;
+        tokio::time::sleep(Duration::from_millis(30)).await;
+        let client = client(addr, certs, BackoffStrategy::constant().with_max_attempts(0)).await?;
+        let mut a = client.requestor(&topic).with_request_encoder(StringCodec).with_reply_decoder(StringCodec).with_request_timeout(250u64)?.open().await?;
+        let ra = a.request("slow".to_string()).await;
+        outs.push(outcome(&ra, "slow"));
+        // nothing else is pending now; the next call (same requestor, or a clone of it) is still waiting when the
+        // late reply to the first one comes in, followed by its own
+        let mut b = if k % 2 == 1 { a.clone() } else { a };
+        let rb = b.request("second".to_string()).await;
+        outs.push(outcome(&rb, "second"));
+        let rc = b.request("third".to_string()).await;
+        outs.push(outcome(&rc, "third"));
+        rep.abort();
+    }
+    Ok(outs.join(","))
+}
+
 async fn run_stall(addr: SocketAddr, certs: &Certs, n: usize, kib: usize) -> anyhow::Result<String> {
     let topic = format!("/verif/rpc{}", TOPIC.fetch_add(1, Ordering::SeqCst));
     let conn = raw_connect(addr, &certs.client("ca.der"), Some((&certs.client("localhost.der"), &certs.client("localhost.key.der")))).await?;
@@ -254,6 +278,7 @@ pub fn run(cfg: &Cfg) {
         cases.push("rqcut 3 1".into());
         cases.push("rqcut 2 2".into());
         cases.push("rqreuse 2".into());
+        cases.push("rqlate 2".into());
         cases.push("rqstall 3 1".into());
         cases.push("rqstall 8 900".into());
         if cfg.tier == Tier::Thorough { cases.push("rqcut 6 3".into()); cases.push("rqreuse 6".into()); }
@@ -262,11 +287,12 @@ pub fn run(cfg: &Cfg) {
     }
     for c in &cases {
         let t: Vec<&str> = c.split(' ').collect();
-        if t[0] == "rqcut" || t[0] == "rqreuse" || t[0] == "rqstall" {
+        if t[0] == "rqcut" || t[0] == "rqreuse" || t[0] == "rqstall" || t[0] == "rqlate" {
             let res = rt.block_on(async {
                 tokio::time::timeout(Duration::from_secs(90), async {
                     if t[0] == "rqcut" { run_cut(addr, &certs, t[1].parse()?, t[2].parse()?).await }
                     else if t[0] == "rqstall" { run_stall(addr, &certs, t[1].parse()?, t[2].parse()?).await }
+                    else if t[0] == "rqlate" { run_late(addr, &certs, t[1].parse()?).await }
                     else { run_reuse(addr, &certs, t[1].parse()?).await }
                 }).await
             });
@@ -278,7 +304,7 @@ pub fn run(cfg: &Cfg) {
                     for (j, o) in line.split(',').enumerate() {
                         if o.starts_with("wrong") { m = Err(format!("C04: request() returned another request's reply ({o}) [{line}]")); break; }
                         if o == "hang" { m = Err(format!("C04: a request whose reply cannot arrive did not fail with a timeout error: request() never returned [{line}]")); break; }
-                        let want = if (t[0] == "rqreuse" && j % 3 == 0) || t[0] == "rqstall" { "timeout" } else { "ok" };
+                        let want = if ((t[0] == "rqreuse" || t[0] == "rqlate") && j % 3 == 0) || t[0] == "rqstall" { "timeout" } else { "ok" };
                         if o != want { m = Err(format!("C04: call {j} ended with {o}, expected {want} [{line}]")); break; }
                     }
                     (line, m)
